@@ -270,6 +270,11 @@ def registry_snapshot():
     return rows
 
 
+def _bypass_list():
+    from bert_e.settings import PrAuthorsOptions
+    return [str(x) for x in PrAuthorsOptions.BYPASS_LIST]
+
+
 def gen_facts(ctx):
     reactor_src = open(os.path.join(core.REPO, 'bert_e/reactor.py')).read()
     commands_src = open(os.path.join(core.REPO, 'bert_e/workflow/gitwaterflow/commands.py')).read()
@@ -316,8 +321,11 @@ Definition commands_except : list (string * (string * bool)) := %s.
 (* tripwires: the regex literals found in handle_options / handle_commands *)
 Definition regex_handle_options : list string := %s.
 Definition regex_handle_commands : list string := %s.
+(* PrAuthorsOptions.BYPASS_LIST of bert_e/settings.py, read from the live class *)
+Definition pr_author_bypass_list : list string := %s.
 ''' % (core.REPO, ';\n    '.join(entries), pairs(opt_tab), pairs(cmd_tab),
-       coq_list(map(coq_str, lits['handle_options'])), coq_list(map(coq_str, lits['handle_commands'])))
+       coq_list(map(coq_str, lits['handle_options'])), coq_list(map(coq_str, lits['handle_commands'])),
+       coq_list(map(coq_str, _bypass_list())))
     return {'Generated/Facts_C07.v': text}
 
 
@@ -788,7 +796,7 @@ def run(ctx):
     t0 = time.time()
     from lib import authoropts, identity
     identity.check(ctx, 'handle_comments: comment author in admins, == pull request author')
-    authoropts.check(ctx)            # "... or is granted by per-author settings": several authors in one settings file
+    authoropts.check(ctx, kernel=True)   # "... or is granted by per-author settings": several authors in one settings file
     opts, cmds = _prepare(ctx)
     job_sequence_tie(ctx, opts, cmds)
     words = opts + cmds + UNKNOWN
